@@ -31,7 +31,7 @@ RULE = ("hand-made set-ups + random hierarchies (1-2 PROTOCOLs, optional FUNCTIO
         "unknown protocol}, get_value / get_subvalue of every instance, every typed accessor x "
         "the same protocol arguments. Distinct = distinct (hierarchy, placement, value-kind) "
         "structure; non-trivial = at least one layer inherits or overrides a parameter")
-MIN_EVALS = {"quick": 300000, "thorough": 20000000}
+MIN_EVALS = {"quick": 200000, "thorough": 20000000}
 ASSUMPTIONS = [
     "priority among parents = PROTOCOL < FUNCTIONAL-GROUP < BASE-VARIANT < ECU-VARIANT; both "
     "the recursive reading (a parent's whole table counts with the parent's rank) and the "
@@ -659,7 +659,7 @@ def part_directed(task: int, col: common.Collector) -> None:
 
 def run(tier: str, col: common.Collector) -> None:
     common.pmap(part_directed, [0], col)
-    per_worker = 400 if tier == "quick" else 10000
+    per_worker = 250 if tier == "quick" else 10000
     common.pmap(part_random, [(w, per_worker) for w in range(common.NCPU)], col)
     col.notes["models"] = per_worker * common.NCPU + len(c15gen.directed_models())
     col.notes["cascade_counters"] = (
